@@ -79,6 +79,15 @@ CLAIMS["C02"] = (
     "suffix and DEFtype. Numeric results and literal classification are not decided.",
     "match-table extraction by resolved variant + lattice check + def-use ordering on MIR")
 
+CLAIMS["C07"] = (
+    "decides units, limits and sentinels: every str slice of the VM takes bounds whose def-use "
+    "back-slice ends in char_indices()/find()/len() of the same string object (a bound fed by a "
+    "BASIC number without char_indices().nth() is reported); find() offsets are matched only "
+    "against char_indices() of the searched string; LEN and the 255 limits count chars; limits "
+    "are `> 255`; a not-found search is never folded into a legal position; domain errors map to "
+    "the documented codes. That each function returns the documented substring is not decided.",
+    "provenance (def-use back-slice) analysis of slice bounds + constant/comparison-kind checks")
+
 NOT_APPLICABLE = {}
 
 
